@@ -19,15 +19,19 @@ innermost entered context manager ``ctx``:
   N.commit (N live)   RELEASE: N and every savepoint inside it merge into N's parent;   N ended: raises
   N.rollback / N.close (N live)   ROLLBACK TO: N and everything inside it discarded, exactly;   N ended: no effect, no error
   h.__enter__     ctx := h;   h.__exit__(None) ≡ h.commit() if h live;   h.__exit__(exc) ≡ h.rollback() if h live; ctx restored
-  "ctx dead"      a context manager is entered whose transaction has ended: begin / begin_nested / ins raise until it exits
+  "ctx dead"      a context manager is entered whose transaction has ended: begin / begin_nested / ins and the savepoint
+                  commands of a live N raise until it exits ("Please complete the context manager before emitting further
+                  commands"); after a refused savepoint command the rest of the sequence is not judged (undocumented state)
 
 Contract clauses evaluated after EVERY step:
   F1  conn.closed == ghost.closed
-  F2  in_transaction() == (ghost stack non-empty)          F3  in_nested_transaction() == (a ghost savepoint is live)
+  F2  in_transaction() == (ghost stack non-empty)          F3  in_nested_transaction() == (a ghost savepoint is live) and
+      get_nested_transaction() is the handle of the innermost live ghost savepoint
   F4  in_nested_transaction() ⇒ in_transaction();  nothing active on a closed connection
   F5  rows visible from the independent connection == ghost.committed                       (no phantom / lost commit)
   F6  rows visible to the subject connection == ghost.committed ∪ keys of all live frames  (a savepoint rollback discards
       exactly the inner writes; an outer rollback / close discards everything uncommitted)
+  F7  when the ghost stack is empty (after commit / rollback / close) no connection holds uncommitted writes any more
   E1  anything an operation raises is InvalidRequestError or ResourceClosedError
   E2  an operation the ghost says must raise (ended transaction, closed connection, second begin, dead ctx) raises
   E3  an operation the ghost says is legal does not raise
@@ -55,10 +59,10 @@ OPS = ["begin", "begin_nested", "ins", "commit", "rollback", "close",
 
 
 class Frame:
-    __slots__ = ("kind", "writes", "live", "outer_ctx", "entered")
+    __slots__ = ("kind", "writes", "live", "outer_ctx", "entered", "handle")
 
-    def __init__(self, kind):
-        self.kind, self.writes, self.live, self.outer_ctx, self.entered = kind, [], True, None, False
+    def __init__(self, kind, handle=None):
+        self.kind, self.writes, self.live, self.outer_ctx, self.entered, self.handle = kind, [], True, None, False, handle
 
 
 class Ghost:
@@ -112,11 +116,20 @@ class Env:
         self.tmp = tempfile.TemporaryDirectory(prefix="verif-c23-", dir=base)
         self.path = os.path.join(self.tmp.name, "c23.db")
         self.engine = create_engine(f"sqlite:///{self.path}", connect_args={"autocommit": False})
-        self.obs = sqlite3.connect(self.path, isolation_level=None)
+        self.obs = sqlite3.connect(self.path, isolation_level=None, timeout=0)
         self.obs.execute("create table t (k integer)")
 
     def observed(self):
         return sorted(r[0] for r in self.obs.execute("select k from t"))
+
+    def write_lock_free(self):
+        """True iff no other connection holds uncommitted writes (SQLite RESERVED lock)"""
+        try:
+            self.obs.execute("begin immediate")
+        except sqlite3.OperationalError:
+            return False
+        self.obs.execute("rollback")
+        return True
 
     def close(self):
         self.obs.close()
@@ -127,7 +140,11 @@ class Env:
 def run_seq(env, ops, trace=False):
     """returns dict(status='ok'|'pruned'|'fail', steps=n, failure=..., raised=[...], trace=[...])"""
     from sqlalchemy import exc as sa_exc
-    env.obs.execute("delete from t")
+    try:
+        env.obs.execute("delete from t")
+    except sqlite3.OperationalError:           # a previous sequence left a lock behind (already reported there): start clean
+        env.engine.dispose()
+        env.obs.execute("delete from t")
     conn = env.engine.connect()
     G = Ghost()
     T = None            # (handle, Frame)
@@ -179,6 +196,14 @@ def run_seq(env, ops, trace=False):
                 must_raise = G.closed or G.ctx_dead()
             elif target is not None and verb == "commit":
                 must_raise = not target[1].live
+            undetermined = False
+            if target is not None and target[1].kind == "savepoint" and target[1].live and G.ctx_dead() \
+                    and verb in ("commit", "rollback", "close", "exit_ok", "exit_raise"):
+                # RELEASE / ROLLBACK TO are commands emitted through the Connection: refused while a context manager whose
+                # transaction has ended is still entered.  What state the savepoint handle is left in is not documented:
+                # the operation must raise; the rest of the sequence is not judged.
+                must_raise = True
+                undetermined = True
 
             # ---- the real call
             err = None
@@ -218,7 +243,7 @@ def run_seq(env, ops, trace=False):
                 elif op == "begin_nested":
                     if G.root is None:
                         G.root = Frame("root")
-                    f = Frame("savepoint")
+                    f = Frame("savepoint", new_handle)
                     G.sps.append(f)
                     N.append((new_handle, f))
                 elif op == "ins":
@@ -265,6 +290,9 @@ def run_seq(env, ops, trace=False):
                 fail = ("E2-misuse-did-not-raise", "the ghost says this operation must raise; it returned normally")
             elif err and not must_raise:
                 fail = ("E3-legal-operation-raised", f"{err[0]}: {err[2]}")
+            if fail is None and undetermined:
+                out["status"] = "undetermined"
+                break
             if fail is None:
                 it, inn, cl = conn.in_transaction(), conn.in_nested_transaction(), conn.closed
                 obs = env.observed()
@@ -278,8 +306,12 @@ def run_seq(env, ops, trace=False):
                     fail = ("F2-in_transaction", f"in_transaction()={it} ghost={G.root is not None}")
                 elif inn != bool(G.sps):
                     fail = ("F3-in_nested_transaction", f"in_nested_transaction()={inn} ghost savepoints={len(G.sps)}")
+                elif conn.get_nested_transaction() is not (G.sps[-1].handle if G.sps else None):
+                    fail = ("F3-current-savepoint", "get_nested_transaction() is not the innermost live savepoint of the ghost")
                 elif obs != sorted(G.committed):
                     fail = ("F5-committed-data", f"independent connection sees {obs}, ghost committed {sorted(G.committed)}")
+                elif G.root is None and not env.write_lock_free():
+                    fail = ("F7-uncommitted-work-survives", "no transaction in the ghost, yet a connection still holds uncommitted writes")
                 elif not cl:
                     mine = sorted(r[0] for r in conn.connection.dbapi_connection.execute("select k from t"))
                     if mine != sorted(G.visible()):
@@ -335,7 +367,7 @@ def sequences(maxlen):
 def worker(shard, nshards, maxlen):
     warnings.simplefilter("ignore")
     env = Env()
-    out = dict(sequences=0, evaluated=0, pruned=0, steps=0, failures=[], outcomes={}, samples=[], truncated=0)
+    out = dict(sequences=0, evaluated=0, pruned=0, steps=0, failures=[], outcomes={}, samples=[], truncated=0, undetermined=0)
     try:
         for idx, ops in enumerate(sequences(maxlen)):
             if idx % nshards != shard:
@@ -345,6 +377,8 @@ def worker(shard, nshards, maxlen):
             if r["status"] == "pruned":
                 out["pruned"] += 1
                 continue
+            if r["status"] == "undetermined":
+                out["undetermined"] += 1
             out["evaluated"] += 1
             out["steps"] += r["steps"]
             if r["status"] == "fail":
@@ -372,7 +406,7 @@ def run(run, tier, seed, args):
     procs = default_procs(tier)
     t0 = time.time()
     res = shard_map(worker, procs, procs, maxlen)
-    tot = dict(sequences=0, evaluated=0, pruned=0, steps=0, truncated=0, distinct_outcomes=0, with_error_step=0)
+    tot = dict(sequences=0, evaluated=0, pruned=0, steps=0, truncated=0, distinct_outcomes=0, with_error_step=0, undetermined=0)
     failures, samples = [], []
     for r in res:
         if r is None or "crash" in r:
@@ -401,7 +435,8 @@ def run(run, tier, seed, args):
         scope=f"all operation sequences of length <= {maxlen} over {OPS} on one Connection (savepoint depth <= {maxlen}), "
               f"file-backed SQLite in sqlite3 autocommit=False mode, one independent observer connection; every step judged",
         sequences_enumerated=tot["sequences"], pruned_no_target=tot["pruned"], steps_judged=tot["steps"],
-        sequences_cut_at_first_failure=tot["truncated"], distinct_outcomes=tot["distinct_outcomes"],
+        sequences_cut_at_first_failure=tot["truncated"],
+        sequences_cut_after_refused_savepoint_command_in_dead_ctx=tot["undetermined"], distinct_outcomes=tot["distinct_outcomes"],
         processes=procs, enumeration_wall_s=round(time.time() - t0, 1))
     run.assumptions += [
         "SQLite (sqlite3 driver, autocommit=False i.e. PEP-249 transaction control) stands for 'a backend'; PostgreSQL / MariaDB are outside",
